@@ -205,11 +205,12 @@ SIDE_TOKENS = ('-1', '--tagged', '-0', '--istagged', '-v', '-q', '-f',
 CLUSTERS = ('-1W', '-W1', '-vW', '-Wv', '-0W', '-W0', '-1vW', '-fW1')
 
 
-def argv_space(tier):
+def argv_space(tier, maxside=None):
     """Every argv (list of tokens after the program name) of the bounded
     grammar  prefix* core suffix*  (documented spellings only)."""
     forms = KIND_FORMS_T if tier == 'thorough' else KIND_FORMS_Q
-    maxside = 2 if tier == 'thorough' else 1
+    if maxside is None:
+        maxside = 2 if tier == 'thorough' else 1
     sides = [[]]
     for n in range(1, maxside + 1):
         sides += [list(s) for s in itertools.product(SIDE_TOKENS, repeat=n)]
@@ -1042,6 +1043,9 @@ class C10(Check):
         self.world = None
         self.tier = 'quick'
 
+    def hashseeds(self, tier, verif_seed):
+        return [verif_seed % 3]
+
     # ---- layers / cases
 
     def layers(self, tier):
@@ -1059,8 +1063,11 @@ class C10(Check):
 
     def cases(self, tier, layer):
         if layer == 'argv':
+            base = start_tables('quick')
             for st in start_tables(tier):
-                for a in argv_space(tier):
+                # thorough: two-token prefixes from the 8 base tables, one-
+                # token prefixes from all 27 tables
+                for a in argv_space(tier, None if st in base else 1):
                     yield {'mode': 'argv', 'route': 'flags', 'start': st,
                            'argv': a}
             for st in start_tables(tier):
